@@ -407,7 +407,7 @@ func (n *ImplicitNodes) Next() bool {
 // Node returns the current node of the iterator. Next must have been
 // called prior to a call to Node.
 func (n *ImplicitNodes) Node() graph.Node {
-	if n.Len() == -1 || n.curr < n.beg {
+	if n.curr < n.beg || n.curr >= n.end {
 		return nil
 	}
 	return n.newNode(n.curr)
